@@ -99,3 +99,24 @@ class PropBase:
 
     def candidates(self, scn):
         return iter(())
+
+
+def exotic_tag(units):
+    """File names containing the separator characters of cppcheck's own serialisation formats (';' in the suppression
+    transfer, ':' in files.txt and CTU ids) are a separate, known class of defects: they get their own signature."""
+    chars = sorted(set(ch for u in units for ch in u.split("/")[-1] if ch in ";:#"))
+    if any(ord(ch) > 127 for u in units for ch in u):
+        chars.append("non-ASCII")
+    return " [file name contains %s]" % " and ".join("'%s'" % c for c in chars) if chars else ""
+
+
+def crash_text(r):
+    """Normalised reason of an abnormal end (exception text without the variable parts)."""
+    import re
+    for l in reversed(r.stderr.strip().split("\n")):
+        if "what():" in l:
+            t = l.split("what():", 1)[1].strip()
+            t = re.sub(r"'[^']*'", "'..'", t)
+            t = re.sub(r"\d+", "N", t)
+            return " (" + t[:80] + ")"
+    return ""
